@@ -342,9 +342,9 @@ def run(ctx):
     # ---------------- R4.6 / R4.7 body reassembly and PLAIN parameter text (shared with C18 / C12)
     from . import c18, c12, c03, c19
     ctx.include(c03, {"R3.6"}, "R4.9", "client and server generators must classify the return / argument type alike (204 shortcuts, decoders)")
-    ctx.include(c07, {"R7.7", "R7.5", "R7.8"}, "R4.8", "each path argument must be written into the template segment of its own name and decoded by the inverse steps")
+    ctx.include(c07, {"R7.7", "R7.5", "R7.8", "R7.9"}, "R4.8", "each path argument must be written into the template segment of its own name and decoded by the inverse steps")
     ctx.include(c18, {"R18.5"}, "R4.6", "request and response bodies must reach the decoder complete (every chunk, until the stream ends)")
-    ctx.include(c19, {"R19.7"}, "R4.10", "an argument the client sent (an empty string included) must reach the handler as that value, never as an absent optional")
+    ctx.include(c19, {"R19.7", "R19.9"}, "R4.10", "an argument the client sent (an empty string included) must reach the handler as that value, never as an absent optional")
     ctx.include(c12, {"R12.1", "R12.2", "R12.3", "R12.4", "R12.5"}, "R4.7", "path / query / header arguments travel as PLAIN text and must parse back to the same value")
 
 
